@@ -151,6 +151,7 @@ func runC19(c *Ctx) {
 	c.load("./cmd/templ/generatecmd/sse", "./cmd/templ/generatecmd/proxy", "./cmd/templ/generatecmd")
 	broadcastEntryForwardsEverything(c, "C19.R6", "C19.R7")
 	streamServerHasNoWriteDeadline(c, "C19.R8")
+	locksNeverCopied(c, "C19.R9", "cmd/templ/generatecmd/sse")
 	p := c.pkg("cmd/templ/generatecmd/sse")
 	info := p.TypesInfo
 	ri := findChanRegistry(p)
